@@ -248,6 +248,9 @@ func Listen(addr string, rawCert []byte, privateKey []byte) net.Listener {
 type participant2ID map[string]uint16
 
 func handleConn(p2id participant2ID, conn net.Conn, inMsgs chan InMsg, stopFlag *uint32, l Logger) {
+	// Once we stop reading from the connection the peer must learn about it, or it keeps sending into the void
+	defer conn.Close()
+
 	l.Debugf("Connection from %s", conn.RemoteAddr())
 	domain, from, authenticationSucceeded := authenticateConnection(p2id, conn, l)
 	if !authenticationSucceeded {
